@@ -62,9 +62,23 @@ def run_tasks(rep: Reporter, tasks: Sequence[Task], procs: int = 0) -> None:
                       f"trans={r.get('transitions')} closed={r.get('closed')} err={bool(r.get('error'))}", flush=True)
             rep.add_model(r)
         return
+    import concurrent.futures as cf
+
     ctx = mp.get_context("spawn")
-    with ctx.Pool(processes=procs, maxtasksperchild=4) as pool:  # recycle workers: XLA executables accumulate
-        for r in pool.imap_unordered(_work, list(tasks), chunksize=1):
+    # ProcessPoolExecutor (not mp.Pool): a worker killed from outside (e.g. by the kernel's OOM killer) breaks the
+    # pool with an exception instead of leaving the run waiting forever; recycle workers, XLA executables accumulate
+    pending: Dict[Any, Task] = {}
+    with cf.ProcessPoolExecutor(max_workers=procs, mp_context=ctx, max_tasks_per_child=4) as pool:
+        for t in tasks:
+            pending[pool.submit(_work, t)] = t
+        for fut in cf.as_completed(list(pending)):
+            t = pending.pop(fut)
+            try:
+                r = fut.result()
+            except Exception as e:  # noqa: BLE001 - BrokenProcessPool: every unfinished task fails the same way
+                kw = t[2]
+                r = {"model": kw.get("cfg_name") or kw.get("model") or t[1],
+                     "error": f"worker process died ({type(e).__name__}: {e}); the task did not finish"}
             if verbose:
                 print(f"  .. {r.get('model')} {r.get('task_s')}s states={r.get('states')} "
                       f"trans={r.get('transitions')} closed={r.get('closed')} err={bool(r.get('error'))}", flush=True)
